@@ -69,12 +69,12 @@ func (sig *Signature) SetHexString(s string) error {
 	}
 	buf := s[len(PREFIX):]
 
-	if sig.value.IsNil() {
+	b := common.Hex2Bytes(buf)
+	if len(b) == 0 {
 		sig.value = bn_curve.G1{}
+		return nil
 	}
-
-	sig.value.Unmarshal(common.Hex2Bytes(buf))
-	return nil
+	return sig.Deserialize(b)
 }
 
 func (sig *Signature) IsNil() bool {
